@@ -319,7 +319,7 @@ def main():
       "property_id": pid,
       "tier": tier,
       "seed": args.seed,
-      "level": getattr(mod, "LEVEL", "exploration"),
+      "level": getattr(mod, "LEVEL", "exploration") if getattr(mod, "LEVEL", "exploration") in ("exploration", "fault_enumeration", "model_checking", "proof", "translation_validation", "other") else "exploration",
       "coverage": {
         "evaluations": n_eval,
         "distinct_nontrivial": len(keys),
